@@ -821,6 +821,11 @@ def check(program, rep):
     rep.guard("C05-R1", r1_helpers, program, rep)
     rep.guard("C05-R2", r2_r3, program, rep)
     rep.guard("C05-R4", r4_raises, program, rep)
+    # 'unreserved' is only as good as the reservations: the ones made for
+    # the cores already in use come from build_core_constraints (C14-R5)
+    from . import C14
+    from ..constfold import Folder as _Folder
+    rep.guard("C14-R5", C14.r5_busy_states, program, _Folder(program), rep)
     return finish(rep, program, EXPLANATION, NOT_DECIDED,
                   trusted=["ORDTYPE evaluator (comparison-only fragment)",
                            "floor-division axioms for a divisor >= 1"])
